@@ -1,9 +1,166 @@
-(* C17 - property theorems only. *)
+(* C17 - property theorems only.  Model: C17/Model.v (tied to toolbox.py by exact correspondence);
+   Gen/C17TupleSet.v is regenerated on every run from element_junction_tuples() of the code under test. *)
 From Coq Require Import String List Bool ZArith.
-From PP Require Import C17.Model C17.Proofs.
+From PP Require Import C17.Model C17.Proofs Gen.C17TupleSet.
 Import ListNotations.
 Open Scope string_scope.
 
-Theorem exec_composes : forall s a b n, exec s (a ++ b) n = exec s b (exec s a n).
-Proof. exact exec_app. Qed.
-Print Assumptions exec_composes.
+(* ---- today's code does what the property demands whenever the tuple set is exactly the set of
+        junction-reference columns of the net and pipe references live in valve.element ---- *)
+Theorem model_meets_spec_partial : forall ops n,
+  (forall o, In o ops -> exact (cs_of o) n) -> pexact n -> exec model_sem ops n = exec spec_sem ops n.
+Proof. exact exec_model_eq_spec. Qed.
+Print Assumptions model_meets_spec_partial.
+
+(* reindex_junctions = renaming rho on the junction index, its geodata / result index and EVERY junction reference *)
+Theorem reindex_is_renaming_partial : forall cs lk n, exact cs n ->
+  step model_sem (Reindex cs "junction" lk) n = rename "junction" (app_lk lk) kind_is_kj n.
+Proof. exact reindex_junction_is_rename. Qed.
+Print Assumptions reindex_is_renaming_partial.
+
+(* reindex_pipes = renaming on the pipe index and the pipe references of pi valves *)
+Theorem reindex_pipes_is_renaming : forall cs lk n, pexact n ->
+  step model_sem (Reindex cs "pipe" lk) n = rename "pipe" (app_lk lk) kind_is_kp n.
+Proof. exact reindex_pipe_is_rename. Qed.
+Print Assumptions reindex_pipes_is_renaming.
+
+(* the witness net of the refuted clauses: junctions 0..4, pipes 1:(0,1) 3:(1,2) 7:(2,3) 2:(3,4),
+   a pi valve at junction 1 on pipe 1, ext grid at 0, sink at 4 *)
+Definition jcell (col : string) (v : Z) := mkCell col KJ v.
+Definition wpipe (l a b : Z) := mkRow l [jcell "from_junction" a; jcell "to_junction" b].
+Definition witness : net :=
+  [ mkTable "junction" [mkRow 0 []; mkRow 1 []; mkRow 2 []; mkRow 3 []; mkRow 4 []];
+    mkTable "pipe" [wpipe 1 0 1; wpipe 3 1 2; wpipe 7 2 3; wpipe 2 3 4];
+    mkTable "valve" [mkRow 0 [mkCell "element" KP 1; jcell "junction" 1]];
+    mkTable "ext_grid" [mkRow 0 [jcell "junction" 0]];
+    mkTable "sink" [mkRow 0 [jcell "junction" 4]] ]%Z.
+Definition witness_no_valve : net := filter (fun t => negb (String.eqb (t_name t) "valve")) witness.
+Definition swap_lookup : list (Z * Z) := [(0, 4); (1, 3); (2, 2); (3, 1); (4, 0)]%Z.
+
+Example witness_is_intact : RI witness /\ ok model_sem (Reindex today_cs "junction" swap_lookup) witness = true.
+Proof. split; [apply ri_b_RI; vm_compute; reflexivity | vm_compute; reflexivity]. Qed.
+
+(* REFUTED on the current tree: with today's tuple set the valve's pipe label is run through the junction
+   lookup - the valve silently moves from pipe 1 to pipe 3 *)
+Theorem reindex_is_renaming_refuted : exists lk n, RI n /\ ok model_sem (Reindex today_cs "junction" lk) n = true /\
+  step model_sem (Reindex today_cs "junction" lk) n <> rename "junction" (app_lk lk) kind_is_kj n.
+Proof.
+  exists swap_lookup, witness. split; [apply witness_is_intact|]. split; [apply witness_is_intact|].
+  intro E. apply (f_equal (rows_of "valve")) in E. vm_compute in E. discriminate E.
+Qed.
+Print Assumptions reindex_is_renaming_refuted.
+
+(* composition with the inverse lookup is the identity *)
+Theorem rename_inverse_is_identity : forall e rho rho' k n,
+  (forall x, rho' (rho x) = x) -> rename e rho' k (rename e rho k n) = n.
+Proof. exact rename_roundtrip. Qed.
+Print Assumptions rename_inverse_is_identity.
+
+(* a renaming keeps every junction and pipe reference intact, and unique labels unique when injective *)
+Theorem rename_preserves_integrity : forall rho n,
+  RI n -> RI (rename "junction" rho kind_is_kj n) /\ RI (rename "pipe" rho kind_is_kp n).
+Proof. intros. split; [now apply rename_junction_RI | now apply rename_pipe_RI]. Qed.
+Print Assumptions rename_preserves_integrity.
+
+Theorem rename_keeps_labels_unique : forall e rho k n,
+  (forall x y, In x (labels_of e n) -> In y (labels_of e n) -> rho x = rho y -> x = y) ->
+  NoDup (labels_of e n) -> NoDup (labels_of e (rename e rho k n)).
+Proof. exact rename_labels_nodup. Qed.
+Print Assumptions rename_keeps_labels_unique.
+
+(* create_continuous_junction_index = renaming by rank: injective on the labels, onto start .. start+n-1 *)
+Theorem continuous_index_is_rank_renaming : forall cs start n, exact cs n ->
+  step model_sem (ContElem cs "junction" start) n =
+    rename "junction" (rank_fn (labels_of "junction" n) start) kind_is_kj n.
+Proof. exact cont_elem_is_rename_junction. Qed.
+Print Assumptions continuous_index_is_rank_renaming.
+
+Theorem rank_is_injective_and_contiguous : forall labs start a b, In a labs -> In b labs ->
+  (rank_fn labs start a = rank_fn labs start b -> a = b) /\
+  (start <= rank_fn labs start a < start + Z.of_nat (length labs))%Z.
+Proof.
+  intros labs start a b Ha Hb. split; [now apply rank_injective|].
+  split; [apply rank_range | now apply rank_range_strict].
+Qed.
+Print Assumptions rank_is_injective_and_contiguous.
+
+(* after ANY sequence of the operations no junction reference dangles, provided the tuple set covers the
+   junction-reference columns (guards: fuse target exists, drop_junctions with drop_elements=True) *)
+Theorem no_dangling_junction_refs : forall ops n,
+  plain n -> (forall o, In o ops -> cover_hyp model_sem o n) -> guards model_sem ops n ->
+  RI_J n -> RI_J (exec model_sem ops n).
+Proof. intros. apply exec_RI_J; auto. exact model_sem_sane. Qed.
+Print Assumptions no_dangling_junction_refs.
+
+(* full integrity (junction and pipe references) over any sequence - only for nets without pi valves *)
+Theorem no_dangling_partial : forall ops n,
+  plain n -> (forall o, In o ops -> cover_hyp model_sem o n) -> guards model_sem ops n ->
+  no_pipe_refs n -> RI n -> RI (exec model_sem ops n).
+Proof. intros. apply exec_RI_partial; auto. exact model_sem_sane. Qed.
+Print Assumptions no_dangling_partial.
+
+(* REFUTED on the current tree: drop_pipes, the cascade of drop_junctions, and select_subnet leave a
+   pi valve on a missing pipe *)
+Theorem no_dangling_refuted : exists n, RI n /\
+  (ok model_sem (DropP [1%Z]) n = true /\ ~ RI (step model_sem (DropP [1%Z]) n)) /\
+  (ok model_sem (DropJ today_cs [0%Z] true) n = true /\ ~ RI (step model_sem (DropJ today_cs [0%Z] true) n)) /\
+  (ok model_sem (Select today_cs [1%Z; 2%Z]) n = true /\ ~ RI (step model_sem (Select today_cs [1%Z; 2%Z]) n)).
+Proof.
+  exists witness. split; [apply witness_is_intact|].
+  repeat split; try (vm_compute; reflexivity); intros [_ HP]; revert HP; apply ri_pb_false; vm_compute; reflexivity.
+Qed.
+Print Assumptions no_dangling_refuted.
+
+(* frame: the dropping / selecting operations leave every remaining row unchanged ... *)
+Theorem frame_rows_unchanged : forall s o n tn r,
+  removes_only o = true -> In r (rows_of tn (step s o n)) -> In r (rows_of tn n).
+Proof. exact Proofs.frame_rows_unchanged. Qed.
+Print Assumptions frame_rows_unchanged.
+
+(* ... and drop_junctions keeps every element row that references none of the dropped junctions *)
+Theorem frame_untouched_rows_kept : forall s cs js n tn r,
+  parent tn = None -> fam "junction" tn = false -> In r (rows_of tn n) ->
+  (forall c, In c (r_cells r) -> selJ s cs tn (c_col c) (c_kind c) = true -> ~ In (c_val c) js) ->
+  In r (rows_of tn (step s (DropJ cs js true) n)).
+Proof. exact drop_junctions_keeps_untouched. Qed.
+Print Assumptions frame_untouched_rows_kept.
+
+(* fuse_junctions: every junction reference to a fused junction becomes j1, nothing else changes, the fused
+   junctions disappear (stated for the specification semantics; equal to the code under exactness by
+   model_meets_spec_partial) *)
+Theorem fuse_redirects : forall cs j1 js n,
+  (forall tn r', In r' (rows_of tn (step spec_sem (Fuse cs j1 js) n)) ->
+     exists r, In r (rows_of tn n) /\ r_label r' = r_label r /\
+       r_cells r' = map (fun c => if kind_is_kj (c_kind c) && memz (c_val c) (others j1 js)
+                                  then set_val c j1 else c) (r_cells r)) /\
+  (forall l, In l (labels_of "junction" (step spec_sem (Fuse cs j1 js) n)) <->
+             In l (labels_of "junction" n) /\ ~ In l (others j1 js)).
+Proof. intros. split; [intros tn r'; apply fuse_cells | intros l; apply fuse_junction_rows]. Qed.
+Print Assumptions fuse_redirects.
+
+Theorem fuse_redirects_partial : forall cs j1 js n, exact cs n -> pexact n ->
+  step model_sem (Fuse cs j1 js) n = step spec_sem (Fuse cs j1 js) n.
+Proof. intros. now apply step_model_eq_spec. Qed.
+Print Assumptions fuse_redirects_partial.
+
+(* REFUTED on the current tree: fusing junction 1 into 4 re-attaches the valve from pipe 1 to "pipe 4" *)
+Theorem fuse_redirects_refuted : exists n, RI n /\ ok model_sem (Fuse today_cs 4%Z [1%Z]) n = true /\
+  step model_sem (Fuse today_cs 4%Z [1%Z]) n <> step spec_sem (Fuse today_cs 4%Z [1%Z]) n /\
+  ~ RI (step model_sem (Fuse today_cs 4%Z [1%Z]) n).
+Proof.
+  exists witness. split; [apply witness_is_intact|]. split; [vm_compute; reflexivity|]. split.
+  - intro E. apply (f_equal (rows_of "valve")) in E. vm_compute in E. discriminate E.
+  - intros [_ HP]; revert HP; apply ri_pb_false; vm_compute; reflexivity.
+Qed.
+Print Assumptions fuse_redirects_refuted.
+
+(* non-vacuity: without the valve the witness satisfies every hypothesis used above, for today's tuple set *)
+Example hypotheses_satisfiable :
+  exact today_cs witness_no_valve /\ RI witness_no_valve /\
+  ri_jb (exec model_sem [Reindex today_cs "junction" swap_lookup; Fuse today_cs 4%Z [3%Z]; DropJ today_cs [0%Z] true;
+                         ContElem today_cs "junction" 5%Z] witness_no_valve) = true /\
+  exact_b today_cs witness = false.
+Proof.
+  split; [apply exact_b_exact; vm_compute; reflexivity|].
+  split; [apply ri_b_RI; vm_compute; reflexivity|]. split; vm_compute; reflexivity.
+Qed.
